@@ -4,7 +4,7 @@
    database as key -> rows, query, the location FindLocation returned, the ECS option to echo,
    max-answer.  [wire_name n] = n is an uncompressed wire name (labels of 1..63 bytes, <= 255). *)
 From DnsV Require Import Base.Bytes Model.Store Model.LookupV1 Model.LookupV2 Model.Serve.
-From DnsV Require Import Proofs.Serve Proofs.NoPanic Proofs.Shape.
+From DnsV Require Import Spec.Answer Spec.Rows Proofs.ZoneCut Proofs.Serve Proofs.NoPanic Proofs.Shape Proofs.Reverse.
 Open Scope N_scope.
 
 (* CDB and RocksDB with v1 keys (the label-by-label reader): no panic and no fuel exhaustion
@@ -15,6 +15,16 @@ Theorem C13_no_panic_v1 : forall b st q locr ecs max,
   serve b st q locr ecs max <> OPanic /\ serve b st q locr ecs max <> OFuel.
 Proof. exact serve_no_panic_v1. Qed.
 Print Assumptions C13_no_panic_v1.
+
+(* C13_no_panic_v2_partial.  For the closest-key reader (RocksDB v2 keys) freedom from panics is
+   NOT proved as a whole (it needs the shape of every key SeekForPrev can land on; the differential
+   run covers it on root-zone, root-delegation, empty and generated databases).  Proved: the part of
+   that reader whose indices are Go bytes, reverseZoneNameToBuffer, neither wraps nor panics on a
+   wire-valid name and yields the reversed packed name *)
+Theorem C13_reverse_zone_name_no_panic : forall n, wf_name n -> nlen (pack n) <= 255 ->
+  reverse_zone_name (pack n) = Val (rpack n).
+Proof. exact reverse_zone_name_pack. Qed.
+Print Assumptions C13_reverse_zone_name_no_panic.
 
 (* an unsupported EDNS version gets BADVERS whatever the database, client and backend *)
 Theorem C13_badvers : forall b st q locr ecs max v,
